@@ -61,7 +61,35 @@ def parsePad (s : String) : Option Pad :=
       | some o, some c, some v =>
         if sg = "v" ∨ sg = "n" ∨ sg = "w" ∨ sg = "i" then some { owner := o, ctr := c, valid := sg = "v", ver := v } else none
       | _, _, _ => none
+    | [o, c, sg, v, e] => match o.toNat?, c.toNat?, v.toNat?, e.toNat? with
+      | some o, some c, some v, some e =>
+        -- the content type as delivered; the owner wrote 7
+        if sg = "v" ∨ sg = "n" ∨ sg = "w" ∨ sg = "i" then
+          some { owner := o, ctr := c, valid := sg = "v", ver := v, enc := e, encOwner := 7 } else none
+      | _, _, _, _ => none
     | _ => none
+
+/-- record key of register number `k`: a code no content, no vault has -/
+def regKey (k : Nat) : Nat := (Sym.raw (2000000 + k)).code
+
+/-- `R<k>.<v|w>` -/
+def parseReg (s : String) : Option Reg :=
+  match dropPrefix "R" s with
+  | none => none
+  | some r => match r.splitOn "." with
+    | [k, sg] => match k.toNat? with
+      | some k => if k < 3 ∧ (sg = "v" ∨ sg = "w") then some { key := regKey k, valid := sg = "v", id := k } else none
+      | none => none
+    | _ => none
+
+/-- `T<id>+<id>…` -/
+def parseTxs (s : String) : Option (List Nat) :=
+  match dropPrefix "T" s with
+  | none => none
+  | some r =>
+    match (r.splitOn "+").mapM (·.toNat?) with
+    | some ids => if ids.length ≤ 4 ∧ 0 < ids.length ∧ ids.all (· ≤ 9) then some ids else none
+    | none => none
 
 /-- `<hdr>:<body>[@<key>]`: the `@<key>` part says under which `Record.key` the holder filed the reply; neither
 `get_record_from_network` (it re-keys what its split handling returns with the *requested* key) nor `chunk_get` /
@@ -71,12 +99,15 @@ def parseRec (s : String) : Option (Rec Sym) :=
   | [h, b] =>
     let hdr : Option (Option Kind) :=
       if h = "c" then some (some .chunk) else if h = "s" then some (some .scratchpad)
+      else if h = "r" then some (some .register) else if h = "t" then some (some .transaction)
       else if h = "o" ∨ h = "p" then some (some .other) else if h = "x" then some none else none
     let body : Option (Body Sym) :=
       if b = "J" then some .junk else if b = "Z" then some .empty
-      else match parsePad b with
-        | some p => some (.pad p)
-        | none => (parseContent b).map Body.chunk
+      else match parsePad b, parseReg b, parseTxs b with
+        | some p, _, _ => some (.pad p)
+        | _, some g, _ => some (.reg g)
+        | _, _, some ts => some (.txs ts)
+        | _, _, _ => (parseContent b).map Body.chunk
     match hdr, body with
     | some hdr, some body => some ⟨hdr, body⟩
     | _, _ => none
@@ -150,7 +181,7 @@ def step (_ : Unit) (ws : List String) : Unit × String :=
     | some key, some r =>
       if key < 3 then
         match getVault padKey key r with
-        | .ok p => ((), s!"ok {p.owner}.{p.ctr}.{p.ver}")
+        | .ok p => ((), s!"ok {p.owner}.{p.ctr}.{p.ver} t={contentTypeOf p}")
         | .error e => ((), s!"err {vaultErrName e}")
       else ((), "bad-op")
     | _, _ => ((), "bad-op")
@@ -160,7 +191,7 @@ def step (_ : Unit) (ws : List String) : Unit × String :=
       if key < 3 ∧ m.length ≤ 6 ∧ 0 < m.length then
         let outcomes := (ordersOf m).map fun m' =>
           match getVault padKey key (.err (.split m')) with
-          | .ok p => s!"ok {p.owner}.{p.ctr}.{p.ver}"
+          | .ok p => s!"ok {p.owner}.{p.ctr}.{p.ver} t={contentTypeOf p}"
           | .error e => s!"err {vaultErrName e}"
         ((), " | ".intercalate (sortStrings outcomes.eraseDups))
       else ((), "bad-op")
